@@ -134,11 +134,23 @@ def case_tables(prog, cfg):
     sw = SW(prog, cfg["n_t"], cfg["labels"])
     dist = cfg["dist"]
     case = SCase("tables", f"{dist}._survival_by_year_id", cfg_desc(cfg))
-    kind, r = run_guarded(lambda: make_lifetime(sw, dist, cfg["over"], via=cfg.get("via", "set_prms"), inflow_at=cfg["inflow_at"], n_pts=cfg["n_pts"]))
+    via = cfg.get("via", "set_prms")
+    kind, r = run_guarded(lambda: make_lifetime(sw, dist, cfg["over"], via="set_prms" if via == "set_prms-twice" else via, inflow_at=cfg["inflow_at"], n_pts=cfg["n_pts"]))
     if kind != "ok":
         case.v("sf-oracle", False, f"building the lifetime model ended with {kind}: {r}", "LifetimeModel.cast_any_to_np_array")
         return case
     lm, prms, at = r
+    if via == "set_prms-twice":
+        # history: the tables have been read for a first parameter set; then the model is re-parametrised
+        run_guarded(lambda: sw.it.get_attr(lm, "sf"))
+        run_guarded(lambda: sw.it.get_attr(lm, "pdf"))
+        prms, at = {}, {}
+        for nm in DISTS[dist]:
+            prms[nm], at[nm] = sw.param(nm, cfg["over"], "B", sign="pos")
+        kind, r = run_guarded(lambda: sw.it.call_method(lm, "set_prms", **prms))
+        if kind != "ok":
+            case.v("sf-oracle", False, f"set_prms on a model whose tables had been read ended with {kind}: {r}", "LifetimeModel.set_prms")
+            return case
     kind, sf = run_guarded(lambda: sw.it.get_attr(lm, "sf"))
     if kind != "ok" or not isinstance(sf, SArr):
         case.v("sf-oracle", False, f"reading sf ended with {kind}: {sf}", "LifetimeModel.compute_survival_factor")
@@ -524,12 +536,14 @@ def table_configs(tier):
             overs = ["number", "all"] + (["labels", "labels-reversed", "all-permuted"] if labels else []) + ["time"]
             for over in overs:
                 quads = [(1, "start"), (1, "middle"), (1, "end"), (2, "middle"), (3, "middle")]
+                if over in ("number", "all") and not labels:
+                    quads += [(2, "start"), (3, "end")]      # documented: inflow_at is ignored with more than one point
                 if tier == "thorough" and n_t == 3 and over in ("number", "all"):
                     quads += [(k, "middle") for k in range(4, 11)]
                 if tier == "quick" and over not in ("number", "all"):
                     quads = [(1, "middle"), (2, "middle")]
                 for n_pts, ia in quads:
-                    for via in (("set_prms", "__init__") if over in ("number", "all") and n_pts == 1 and ia == "middle" else ("set_prms",)):
+                    for via in (("set_prms", "__init__", "set_prms-twice") if over in ("number", "all") and n_pts == 1 and ia == "middle" else ("set_prms",)):
                         out.append(dict(n_t=n_t, labels=labels, dist=dist, over=over, n_pts=n_pts, inflow_at=ia, via=via))
     return out
 
@@ -542,6 +556,8 @@ def dsm_configs(tier):
             overs = ["number", "all"] if tier == "quick" else (["number", "all", "time"] + (["labels"] if labels else []))
             if labels:
                 overs = overs + ["shared-first-cohort"]
+            if len(labels) == 2:
+                overs = overs + ["first-label", "last-label"]
             for over in overs:
                 if tier == "quick" and dist not in ("NormalLifetime", "FixedLifetime") and over != "all":
                     continue
